@@ -867,7 +867,19 @@ impl Inner {
                 // nor the connection is at fault.
                 if stream.state.is_local_error() {
                     self.actions.recv.ensure_can_reserve()?;
-                    return Err(Error::library_reset(promised_id, Reason::CANCEL));
+
+                    // The promised identifier is checked and consumed as for
+                    // any other PUSH_PROMISE (parity, strictly increasing):
+                    // a bad one is the peer's fault, not a race.
+                    return match self.actions.recv.open(
+                        promised_id,
+                        Open::PushPromise,
+                        &mut self.counts,
+                    )? {
+                        Some(_) => Err(Error::library_reset(promised_id, Reason::CANCEL)),
+                        // over the concurrency limit: refused like any other
+                        None => Ok(()),
+                    };
                 }
 
                 // The stream must be receive open
